@@ -21,6 +21,13 @@ T = TypeVar("T")
 U = TypeVar("U", bound=atoms.Assignment)
 
 
+def time_symbol() -> sp.Symbol:
+    """The symbol representing time. Time is a real (and finite) number,
+    just like states and parameters, which e.g. makes ``abs(exp(t))``
+    printable (otherwise sympy introduces ``re(t)``)."""
+    return sp.Symbol("t", real=True, finite=True)
+
+
 def check_components(components: Sequence[BaseComponent]):
     """Check if all components are complete
 
@@ -227,7 +234,7 @@ def make_ode(
         If a symbol is duplicated
     """
     check_components(components=components)
-    t = sp.Symbol("t")
+    t = time_symbol()
     # components = add_temporal_state(components, t)
     check_components(components=components)
     _, symbol_values, symbols, lookup = gather_atoms(components=components)
@@ -322,7 +329,7 @@ class ODE:
                 set(k for k, v in symbol_values.items() if len(v) > 1)
             )
 
-        t = sp.Symbol("t")
+        t = time_symbol()
         self.t = t
         symbols["time"] = t
 
